@@ -6,10 +6,12 @@ from .. import monitors, spaces
 ID = 'C05'
 RULE = _base.SPACE_TEXT + (
     "forced: one (or two) critical raising job(s) per scenario, at top level "
-    "or nested. oracle, with c the first critical raise of a scheduler S: a "
+    "or nested, or a critical nested scheduler failing by its own timeout. "
+    "oracle, with c the first critical raise of a scheduler S: a "
     "body of S entered after #c is entered at t(c) and cancelled at t(c); "
     "every direct job executing at #c gets cancel (or finishes by itself) at "
-    "t(c); run of S ends at t(c) + max cancel_delay + min(max sd, "
+    "t(c), and so does every deeper job executing at #c whose cancellation "
+    "was not already requested; run of S ends at t(c) + max cancel_delay + min(max sd, "
     "shutdown_timeout) exactly (flat S) / at most the recursive bound "
     "(nested); earlier finishers keep result()/raised_exception(). "
     "non-trivial = at #c a sibling was executing, queued or about to start")
